@@ -73,6 +73,15 @@ func Attribute(tr *Trace, v *Violation) []string {
 		for _, a := range v.Also {
 			out = append(out, classProps[a]...)
 		}
+		// C08: if the same trace is clean when every batch step is executed as the loop of single-entity calls,
+		// the batch operation does not leave the world in the state the singles would.
+		if tr != nil && tr.Plan != nil && v.World == "primary" && !contains(out, "C08") && hasOp(tr, "batch") && !tr.Plan.BatchAsSingles {
+			alt := cloneTrace(tr)
+			alt.Plan.BatchAsSingles = true
+			if v2, _ := RunTrace(alt, false); v2 == nil {
+				out = append(out, "C08")
+			}
+		}
 		// C16 ("all IDs usable whenever the type was registered"): if the same trace is clean with every type registered
 		// up front at dense IDs, the failure depends on registration time or ID placement.
 		if tr != nil && tr.Plan != nil && v.World == "primary" && !contains(out, "C16") {
@@ -86,6 +95,10 @@ func Attribute(tr *Trace, v *Violation) []string {
 					}
 					alt.Plan.Types[i].Late = false
 					alt.Plan.Types[i].Fillers = 0
+				}
+				if alt.Plan.FillToLimit {
+					moved = true
+					alt.Plan.FillToLimit = false
 				}
 				if moved {
 					alt.Steps = dropOps(alt.Steps, "regtype")
@@ -201,11 +214,14 @@ func Attribute(tr *Trace, v *Violation) []string {
 					out = append(out, "C15")
 				}
 			}
-			if hasOp(tr, "regtype") {
+			if hasOp(tr, "regtype") || tr.Plan.FillToLimit {
 				alt := cloneTrace(tr)
 				for i := range alt.Plan.Types {
 					alt.Plan.Types[i].Late = false
+					alt.Plan.Types[i].Fillers = 0
 				}
+				alt.Plan.FillToLimit = false
+				alt.Steps = dropOps(alt.Steps, "regtype")
 				if v2, _ := RunTrace(alt, false); v2 == nil {
 					out = append(out, "C16")
 				}
@@ -218,6 +234,20 @@ func Attribute(tr *Trace, v *Violation) []string {
 func contains(l []string, x string) bool {
 	for _, y := range l {
 		if y == x {
+			return true
+		}
+	}
+	return false
+}
+
+// DirectlyAttributed: does the violation's class (or a class it also establishes) belong to prop without any
+// differential re-execution?
+func DirectlyAttributed(v *Violation, prop string) bool {
+	if contains(classProps[v.Class], prop) {
+		return true
+	}
+	for _, a := range v.Also {
+		if contains(classProps[a], prop) {
 			return true
 		}
 	}
